@@ -170,7 +170,7 @@ def bsr_cases(ctx):
         add('last-only', 2, 4, 2, dm, dn, dp, [[3], [0, 3]], [[0, 1, 2, 3], [3]])
         add('zero-blocks', 2, 3, 2, dm, dn, dp, [[0, 1, 2]] * 2, [[0, 1, 2]] * 2, zero_prob=1.0)
     # random: every block size 1..4, densities 0..1
-    nr = ctx.scale(260, 3000)
+    nr = ctx.scale(400, 3000)
     dens = [0.0, 0.1, 0.25, 0.5, 0.75, 0.9, 1.0]
     smax = ctx.scale(4, 6)
     for t in range(nr):
@@ -380,8 +380,7 @@ def cg_cases(ctx):
     cases = []
 
     def add(branch, A, b, x0, M, tol, maxiters, storeA='dense', storeM='dense', bcol=True):
-        for mi in maxiters:
-            cases.append(dict(kind='cg', branch=branch, A=A, b=b, x0=x0, M=M, tol=tol, maxiter=mi, storeA=storeA, storeM=storeM, bcol=bcol))
+        cases.append(dict(kind='cg', branch=branch, A=A, b=b, x0=x0, M=M, tol=tol, maxiters=maxiters, storeA=storeA, storeM=storeM, bcol=bcol))
     I2 = [[1.0, 0.0], [0.0, 1.0]]
     S4 = [[4.0, 1.0, 0, 0], [1.0, 3.0, 0, 0], [0, 0, 2.0, 0.5], [0, 0, 0.5, 1.0]]
     # directed: every branch of the model
@@ -403,7 +402,7 @@ def cg_cases(ctx):
         if st != 'bsr':
             add('precond-storage-' + st, S4, [1.0, 2.0, 3.0, 4.0], None, [[0.25, 0, 0, 0], [0, 0.5, 0, 0], [0, 0, 0.5, 0], [0, 0, 0, 1.0]], 1e-5, [None, 2], storeM=st)
     # random small dyadic SPD systems, iterates x_0 .. x_{n+2} and the default
-    for t in range(ctx.scale(40, 400)):
+    for t in range(ctx.scale(60, 400)):
         n = rng.randint(1, 5)
         A = spd_dyadic(rng, n)
         b = [dy(rng, -4, 4, 4) for _ in range(n)]
@@ -423,25 +422,32 @@ def check_cg(ctx, torch, CG, files, tables):
     cases = cg_cases(ctx)
     lits = []
     for i, c in enumerate(cases):
-        v = run_cg(torch, CG, c)
-        c['impl'] = v
-        if isinstance(v, tuple):
-            ctx.violation('CG.forward:raises', 'CG(maxiter=%s, tol=%s) raised on an SPD system stored as %s: %s' % (c['maxiter'], c['tol'], c['storeA'], v[1]), c)
-            impl, eps = None, 0.0
-        elif v == 'nonfinite':
-            impl, eps = None, 0.0
-        else:
-            impl, eps = v, 1e-7 * (1.0 + max(abs(t) for t in v))
-        ctx.case(('cg', str(c['A']), str(c['b']), str(c['x0']), str(c['M']), c['tol'], c['maxiter'], c['storeA'], c['storeM'], c['bcol']),
-                 nontrivial=(c['maxiter'] != 0 and any(c['b'])), branch='cg:' + c['branch'].split('-n')[0],
-                 sample=dict(c) if i in (30, 90) else None)
-        ctx.count('cg-storage:' + c['storeA'])
+        n = len(c['b'])
+        vals, eps = [], 0.0
+        for mi in c['maxiters']:
+            v = run_cg(torch, CG, dict(c, maxiter=mi))
+            k = 10 * n if mi is None else mi
+            if isinstance(v, tuple):
+                ctx.violation('CG.forward:raises', 'CG(maxiter=%s, tol=%s) raised on an SPD system stored as %s: %s' % (mi, c['tol'], c['storeA'], v[1]), dict(c, maxiter=mi))
+                continue
+            if v == 'nonfinite':
+                vals.append((k, None))
+            else:
+                vals.append((k, v))
+                eps = max(eps, 1e-7 * (1.0 + max(abs(t) for t in v)))
+            ctx.case(('cg', str(c['A']), str(c['b']), str(c['x0']), str(c['M']), c['tol'], mi, c['storeA'], c['storeM'], c['bcol']),
+                     nontrivial=(mi != 0 and any(c['b'])), branch='cg:' + c['branch'].split('-n')[0])
+            ctx.count('cg-storage:' + c['storeA'])
+        c['impl'] = vals
+        if i in (3, 40):
+            ctx.samples.append(dict(c))
+        ctx.traces += 1
+        K = max([k for k, _ in vals] + [0])
         lits.append('(%s, %s, %s, %s, %s, %s, %s, %s, %s)' % (
-            nat(i), qmat(c['A']), qlist(c['b']), opt(c['x0'], qlist), opt(c['M'], qmat), qlit(c['tol']),
-            opt(c['maxiter'], nat), opt(impl, qlist), qlit(eps)))
-    ctx.traces += len({(str(c['A']), str(c['b']), str(c['x0']), str(c['M']), c['tol']) for c in cases})
+            nat(i), qmat(c['A']), qlist(c['b']), opt(c['x0'], qlist), opt(c['M'], qmat), qlit(c['tol']), nat(K),
+            coq_list('(%s, %s)' % (nat(k), opt(v, qlist)) for k, v in vals), qlit(eps)))
     hdr = 'From PV Require Import Base.Num Model.Solver.\nFrom Coq Require Import List ZArith QArith Bool. Import ListNotations.\n'
-    per = 60
+    per = 6
     for si, sh in enumerate(shard(lits, per)):
         files.append(('cg_%03d' % si, hdr + 'Definition cs : list cg_case := %s.\nEval vm_compute in cg_bad cs.\n' % coq_list(sh)))
     tables['cg'] = (cases, per)
@@ -549,14 +555,61 @@ def mat_family(torch, rng, gen, m, n, fam):
         A = (Q * lam) @ Q.T
         return (A + A.T) / 2, dict(kappa=4.0, rank=n)
     if fam == 'singular-psd':
-        r = rng.randint(0, n - 1) if n > 1 else 0
-        G = T.tensor([[rng.randint(-2, 2) for _ in range(r)] for _ in range(n)], dtype=T.float64).reshape(n, r)
-        return G @ G.T, dict(kappa=float('inf'), rank=r)
+        # an SPD matrix with one zero row and column inserted: the pivot there is exactly 0 in floating
+        # point as well (a singular matrix whose zero pivot is only reached through rounding is on the
+        # boundary of the SPD set and LAPACK cannot be expected to tell)
+        k = rng.randrange(n)
+        A = T.zeros(n, n, dtype=T.float64)
+        if n > 1:
+            S, _ = mat_family(T, rng, gen, n - 1, n - 1, 'spd')
+            keep = [i for i in range(n) if i != k]
+            A[T.tensor(keep)[:, None], T.tensor(keep)[None, :]] = S
+        return A, dict(kappa=float('inf'), rank=n - 1)
     raise ValueError(fam)
 
 
 def nrm(t):
     return float(t.norm())
+
+
+def ls_property(T, solver, c):
+    """PINV / LSTSQ on one (batched) case: every returned column must be a least-squares solution (normal
+    equations A^T (A x - b) = 0, relative to |A| (|A| |x| + |b|), tolerance 1e3 max(m,n) eps cond) and,
+    for PINV and for LSTSQ's default driver on rank-deficient A, have no component in the null space of A.
+    Returns (failure description or None, {quantity: measured / allowed})."""
+    A = T.tensor(c['A'], dtype=T.float64)
+    b = T.tensor(c['b'], dtype=T.float64)
+    m, n, k = c['m'], c['n'], c['k']
+    try:
+        if c['solver'] == 'PINV':
+            x = solver.PINV(rtol=c['tolcut'])(A, b)
+        else:
+            x = solver.LSTSQ(rcond=c['tolcut'])(A, b)
+    except Exception as e:  # noqa
+        return '%s raised %s on a finite %dx%d matrix: %s' % (c['solver'], type(e).__name__, m, n, str(e)[:160]), {}
+    Af, bf, xf = A.reshape(-1, m, n), b.reshape(-1, m, k), x.reshape(-1, n, k)
+    ratios, why = {}, None
+    for t in range(Af.shape[0]):
+        a, kp = Af[t], c['kappas'][t]
+        na = nrm(a)
+        scale = 1e3 * max(m, n) * EPS
+        g = a.T @ (a @ xf[t] - bf[t])
+        lim = scale * kp * na * (na * nrm(xf[t]) + nrm(bf[t]))
+        r = nrm(g) / lim if lim > 0 else (0.0 if nrm(g) == 0 else float('inf'))
+        ratios['normal-equations'] = max(ratios.get('normal-equations', 0.0), r)
+        if not r <= 1.0 and why is None:
+            why = ('%s(A, b) (A %dx%d, batch %s, cond %.1e, family %s) returned x with |A^T (A x - b)| = %.3e, allowed %.3e: not a least-squares solution'
+                   % (c['solver'], m, n, tuple(c['batch']), kp, c['fam'], nrm(g), lim))
+        if c.get('C') is not None:
+            C = T.tensor(c['C'][t], dtype=T.float64)
+            proj = xf[t] - C.T @ T.linalg.solve(C @ C.T, C @ xf[t])
+            lim = scale * kp * kp * nrm(xf[t]) + 1e-300
+            r = nrm(proj) / lim
+            ratios['minimum-norm'] = max(ratios.get('minimum-norm', 0.0), r)
+            if not r <= 1.0 and why is None:
+                why = ('%s(A, b) (A %dx%d of rank %d, cond %.1e) returned x with a null-space component %.3e (|x| = %.3e): not the minimum-norm solution'
+                       % (c['solver'], m, n, C.shape[0], kp, nrm(proj), nrm(xf[t])))
+    return why, ratios
 
 
 def check_direct(ctx, torch, solver, files, tables):
@@ -596,24 +649,30 @@ def check_direct(ctx, torch, solver, files, tables):
                 rtol_p = None if fam == 'full' else 1e-11
                 P = T.linalg.pinv(A, rtol=rtol_p)
                 # --- wrapper tie: PINV is exactly pinv(A) @ b
-                xp = solver.PINV(rtol=rtol_p)(A, b)
-                if not T.equal(xp, P @ b):
-                    ctx.mismatch('wrapper:PINV', dict(cdesc, what='PINV(A,b) is not pinv(A) @ b'))
+                try:
+                    xp = solver.PINV(rtol=rtol_p)(A, b)
+                    if not T.equal(xp, P @ b):
+                        ctx.mismatch('wrapper:PINV', dict(cdesc, kind='oracle', what='PINV(A,b) is not pinv(A) @ b'))
+                except Exception as e:  # noqa
+                    ctx.violation('PINV.forward:raises', 'PINV raised %s: %s on a finite %dx%d matrix' % (type(e).__name__, str(e)[:120], m, n),
+                                  dict(kind='ls', solver='PINV', fam=fam, m=m, n=n, batch=batch, k=k, tolcut=rtol_p, kappas=[i['kappa'] for i in infos], A=A.tolist(), b=b.tolist(), C=None))
                 try:
                     ls = solver.LSTSQ(rcond=None if fam == 'full' else 1e-11)
                     xl = ls(A, b)
                     raised = False
                 except AssertionError:
                     xl, raised = None, True
+                except Exception as e:  # noqa
+                    ctx.violation('LSTSQ.forward:raises', 'LSTSQ raised %s: %s on a finite %dx%d matrix' % (type(e).__name__, str(e)[:120], m, n),
+                                  dict(kind='ls', solver='LSTSQ', fam=fam, m=m, n=n, batch=batch, k=k, tolcut=None if fam == 'full' else 1e-11, kappas=[i['kappa'] for i in infos], A=A.tolist(), b=b.tolist(), C=None))
+                    continue
                 sol = T.linalg.lstsq(A, b, rcond=None if fam == 'full' else 1e-11).solution
                 wrap.append((0, bool(T.isnan(sol).any()), 0, raised))
                 wmeta.append(dict(cdesc, wrapper='LSTSQ'))
                 if xl is not None and not T.equal(xl, sol):
-                    ctx.mismatch('wrapper:LSTSQ', dict(cdesc, what='LSTSQ(A,b) is not lstsq(A,b).solution'))
-                # --- contracts of the oracles (per batch item)
+                    ctx.mismatch('wrapper:LSTSQ', dict(cdesc, kind='oracle', what='LSTSQ(A,b) is not lstsq(A,b).solution'))
+                # --- contracts of the pinv oracle (per batch item)
                 Af, Pf = A.reshape(nb, m, n), P.reshape(nb, n, m)
-                bf, xpf = b.reshape(nb, m, k), xp.reshape(nb, n, k)
-                xlf = None if xl is None else xl.reshape(nb, n, k)
                 for t in range(nb):
                     a, p_, kp = Af[t], Pf[t], infos[t]['kappa']
                     na = nrm(a)
@@ -622,17 +681,16 @@ def check_direct(ctx, torch, solver, files, tables):
                     note('pinv:P A P = P', nrm(p_ @ a @ p_ - p_), scale * kp * nrm(p_), cdesc)
                     note('pinv:(A P)^T = A P', nrm((a @ p_).T - a @ p_), scale * kp, cdesc)
                     note('pinv:(P A)^T = P A', nrm((p_ @ a).T - p_ @ a), scale * kp, cdesc)
-                    for name, xs in (('PINV', xpf[t]), ('LSTSQ', None if xlf is None else xlf[t])):
-                        if xs is None:
-                            continue
-                        # least squares: the normal-equation residual A^T (A x - b), relative
-                        g = a.T @ (a @ xs - bf[t])
-                        note(name + ':normal-equations', nrm(g), scale * kp * na * (na * nrm(xs) + nrm(bf[t])), cdesc)
-                        # minimum norm: no component in the null space of A (rank-deficient / wide only)
-                        if fam == 'rankdef':
-                            C = infos[t]['C']
-                            proj = xs - C.T @ T.linalg.solve(C @ C.T, C @ xs)
-                            note(name + ':minimum-norm', nrm(proj), scale * kp * kp * nrm(xs) + 1e-300, cdesc)
+                # --- the property itself on the wrappers' return values (least squares, minimum norm)
+                for name in ('PINV', 'LSTSQ'):
+                    c = dict(kind='ls', solver=name, fam=fam, m=m, n=n, batch=batch, k=k, tolcut=None if fam == 'full' else 1e-11,
+                             kappas=[i['kappa'] for i in infos], A=A.tolist(), b=b.tolist(),
+                             C=[i['C'].tolist() for i in infos] if fam == 'rankdef' else None)
+                    why, ratios = ls_property(T, solver, c)
+                    for kname, v in ratios.items():
+                        worst[name + ':' + kname] = max(worst.get(name + ':' + kname, 0.0), v)
+                    if why:
+                        ctx.violation('%s.forward:not-least-squares' % name, why, c)
     # ---- Cholesky
     nonpd = []
     for n0 in sizes:
@@ -661,6 +719,9 @@ def check_direct(ctx, torch, solver, files, tables):
                 raised = False
             except AssertionError:
                 x, raised = None, True
+            except Exception as e:  # noqa
+                ctx.violation('Cholesky.forward:raises-other', 'Cholesky raised %s: %s (n=%d, %s)' % (type(e).__name__, str(e)[:120], n0, fam), cdesc)
+                continue
             wrap.append((2 if upper else 1, bool(T.isnan(L).any()), int(info.reshape(-1).abs().max()), raised))
             wmeta.append(dict(kind='wrapper', wrapper='Cholesky', fam=fam, n=n0, upper=upper))
             if fam == 'spd':
@@ -670,7 +731,10 @@ def check_direct(ctx, torch, solver, files, tables):
                 LLt = (L.mT @ L) if upper else (L @ L.mT)
                 note('cholesky_ex:L L^T = A', nrm(LLt - A), scale * nrm(A), dict(cdesc, A='...', b='...'))
                 if x is not None:
-                    note('cholesky_solve:A x = b', nrm(A @ x - b), scale * (nrm(A) * nrm(x) + nrm(b)), dict(cdesc, A='...', b='...'))
+                    why = replay(ctx, cdesc)
+                    if why:
+                        ctx.violation('Cholesky.forward:wrong-solution-on-SPD', why, cdesc)
+                    note('cholesky_solve:(L L^T) x = b', nrm(LLt @ b.cholesky_solve(L, upper=upper) - b), scale * kp * (nrm(A) * nrm(x) + nrm(b)), dict(cdesc, A='...', b='...'))
                     if not T.equal(x, b.cholesky_solve(L, upper=upper)):
                         ctx.mismatch('wrapper:Cholesky', dict(cdesc, kind='oracle', A='...', b='...', what='Cholesky(A,b) is not b.cholesky_solve(L)'))
                 else:
@@ -681,7 +745,9 @@ def check_direct(ctx, torch, solver, files, tables):
                 nonpd.append((cdesc, x))
     # the failure clause, on the implementation: a non-PD matrix must raise
     witness = dict(kind='cholesky', fam='indefinite', n=2, batch=(), k=1, upper=False, A=[[1.0, 2.0], [2.0, 1.0]], b=[[1.0], [1.0]])
-    for cdesc in [witness, dict(witness, upper=True), dict(witness, fam='singular-psd', A=[[1.0, 1.0], [1.0, 1.0]])] + [c for c, _ in nonpd]:
+    # the Coq witnesses first: C10_cholesky_raises_refuted_witness (2x2) and C10_cholesky_raises_refuted (1x1)
+    for cdesc in [witness, dict(witness, upper=True), dict(witness, fam='singular-psd', A=[[1.0, 1.0], [1.0, 1.0]]),
+                  dict(witness, n=1, A=[[-1.0]], b=[[1.0]])] + [c for c, _ in nonpd]:
         why = replay(ctx, cdesc)
         ctx.count('cholesky-failure-clause:' + ('returned' if why else 'raised'))
         if why:
@@ -787,17 +853,21 @@ def replay(ctx, c):
         if c.get('tol', 0) <= 0:
             return None
         return cg_property(torch, solver.CG, c)
+    if k == 'ls':
+        return ls_property(torch, solver, c)[0]
     if k == 'cholesky':
         A = torch.tensor(c['A'], dtype=torch.float64)
         b = torch.tensor(c['b'], dtype=torch.float64)
         try:
             x = solver.Cholesky(upper=c.get('upper', False))(A, b)
         except AssertionError:
-            return None if c['fam'] != 'spd' else 'Cholesky raised on an SPD matrix'
+            return None if c['fam'] != 'spd' else 'Cholesky raised AssertionError on an SPD matrix (n=%d)' % c['n']
+        except Exception as e:  # noqa
+            return 'Cholesky raised %s: %s' % (type(e).__name__, str(e)[:160])
         if c['fam'] == 'spd':
             r = float((A @ x - b).norm())
             lim = 1e3 * c['n'] * EPS * float(A.norm() * x.norm() + b.norm())
-            return None if r <= lim else 'Cholesky returned x with |A x - b| = %.3e for SPD A' % r
+            return None if r <= lim else 'Cholesky(upper=%s) returned x with |A x - b| = %.3e (allowed %.3e) for SPD A (n=%d)' % (c.get('upper', False), r, lim, c['n'])
         ev = torch.linalg.eigvalsh(A).reshape(-1, c['n'])[:, 0].min()
         xs = x.reshape(-1).tolist()
         return ('Cholesky(upper=%s)(A, b) returned %s instead of raising; A (n=%d, batch %s, %s) is not positive definite: smallest eigenvalue %.3g'
